@@ -85,6 +85,13 @@ def run_check(prop, tier="quick", facts_override=None, write_evidence=True, quie
         traceback.print_exc()
         print("CHECKER-ERROR property=%s internal error in rule evaluation" % prop)
         return 2, ctx, []
+    extra = {}
+    if tier == "thorough" and facts_override is None:
+        try:
+            extra = thorough_extras(prop, ctx)
+        except CheckerError as e:
+            print("CHECKER-ERROR property=%s (thorough tier) %s" % (prop, e))
+            return 2, ctx, []
     known = load_known()
     viol = [o for o in ctx.obs if o["status"] == "violation"]
     new, kn = [], []
@@ -117,7 +124,10 @@ def run_check(prop, tier="quick", facts_override=None, write_evidence=True, quie
             print(ln)
     resolved = [k for k, d in known.items() if d["property"] == prop and k not in seen_keys]
     if write_evidence:
-        write_ev(prop, tier, seed, ctx, mod, new, kn, resolved, time.time() - t0)
+        write_ev(prop, tier, seed, ctx, mod, new, kn, resolved, time.time() - t0, extra)
+    for r in extra.get("selftest", []):
+        if not quiet and r["status"] != "detected":
+            print("SELFTEST-%s property=%s mutant=%s (checker sensitivity, not a property verdict)" % (r["status"].upper(), prop, r["mutant"]))
     if not quiet:
         n_ok = sum(1 for o in ctx.obs if o["status"] == "ok")
         print("%s %s: %d obligations, %d ok, %d known findings, %d new violations, %.1fs"
@@ -125,7 +135,36 @@ def run_check(prop, tier="quick", facts_override=None, write_evidence=True, quie
     return (1 if new else 0), ctx, new
 
 
-def write_ev(prop, tier, seed, ctx, mod, new, kn, resolved, wall):
+TIERED_OK = ["C03", "C04", "C05", "C07", "C10", "C13", "C20"]
+
+
+def thorough_extras(prop, ctx):
+    """thorough tier: (a) every mutant / seeded change of this property must be detected (run on scratch copies of
+    /repo, never on /repo); (b) the rules are evaluated on the tiered-storage configuration as well where they are
+    configuration-independent. (b) adds obligations (prefixed `tiered:`) to ctx; (a) is reported in the evidence."""
+    from . import selftest
+    out = {"selftest": [], "configs": ["main"]}
+    out["selftest"] = selftest.selftest([prop], verbose=False) + selftest.seeded_test([prop])
+    if prop in TIERED_OK:
+        d = extract.facts_dir("tiered")
+        sub = Ctx(prop, "thorough", {"main": d})
+        mod = importlib.import_module("rules.%s" % prop.lower())
+        mod.run(sub)
+        for o in sub.obs:
+            o = dict(o)
+            o["key"] = o["key"] if o["status"] != "violation" else o["key"]
+            o["instance"] = "tiered:" + o["instance"]
+            o["rule"] = o["rule"]
+            if o["status"] == "violation":
+                # the same defect seen in the second configuration keeps its key (known findings match); anything else is new
+                pass
+            ctx.obs.append(o)
+        ctx.analysed["tiered"] = sub.analysed.get("main")
+        out["configs"].append("tiered")
+    return out
+
+
+def write_ev(prop, tier, seed, ctx, mod, new, kn, resolved, wall, extra=None):
     obs = ctx.obs
     rules = {}
     for o in obs:
@@ -163,6 +202,8 @@ def write_ev(prop, tier, seed, ctx, mod, new, kn, resolved, wall):
             "known_findings_resolved": resolved,
             "new_violations": [o["key"] for o in new],
             "notes": ctx.notes,
+            "selftest": (extra or {}).get("selftest", []),
+            "configs": (extra or {}).get("configs", ["main"]),
             "exhaustive": True,
             "checker_cmd": "./verif check %s --tier %s" % (prop, tier),
             "trusted_base": ["rustc type checking, MIR construction and callee resolution",
